@@ -632,8 +632,10 @@ class NetworkingThread(threading.Thread):
                 else:
                     read_timeout = 0.05
 
-            # Read and react to as many as 50 packets.
-            while num_packets < 50:
+            # Read and react to as many as 50 packets. If writing has failed,
+            # keep reading whatever else the server has already sent, since a
+            # disconnect packet, wherever it is, accounts for the failure.
+            while num_packets < 50 or exc_info is not None:
                 # Fetch the reactor and the stream before testing 'interrupt':
                 # once this thread is interrupted, another thread may start a
                 # new connection, which replaces them, and that connection's
